@@ -240,7 +240,7 @@ example : (((0x100 : Nat) : Int), ((0x100 : Nat) : Int), true) ∈
 theorem search_next_refines (sh : Shape) (exec : Exec) (c : Cache) (s : SearchSt) (d : Int) (hne : c.nCached ≠ 0)
     (hp : PgOk (prepare sh s d).startPgno) (hok : StartOk sh c (prepare sh s d).startPgno) :
     (searchNext sh exec walkFuel c s d).res =
-      statusOf (runPos (callbackOf exec d) c
+      statusOf (runPos (callbackOf sh exec d) c
         (walkPositions sh c (prepare sh s d).startPgno (prepare sh s d).startSubno (dirOf d)) (prepare sh s d)).1 :=
   searchNext_factors sh exec c s d hne hp hok
 
@@ -253,7 +253,7 @@ theorem search_success_sound (sh : Shape) (exec : Exec) (c : Cache) (s : SearchS
     (h : (searchNext sh exec walkFuel c s d).res = .ret SEARCH_SUCCESS) :
     ∃ p sub w e s0 ms me, (p, sub, w) ∈ walkPositions sh c (prepare sh s d).startPgno (prepare sh s d).startSubno 1 ∧
       lookupX c p sub = some e ∧ e.func = FUNC_LOP ∧
-      exec {} ((hayFwd e.text (cursorRow s0 p.toNat e) s0.col0).1.drop (hayFwd e.text (cursorRow s0 p.toNat e) s0.col0).2)
+      exec (fwdFlags sh (hayFwd e.text (cursorRow s0 p.toNat e) s0.col0).1 (hayFwd e.text (cursorRow s0 p.toNat e) s0.col0).2) ((hayFwd e.text (cursorRow s0 p.toNat e) s0.col0).1.drop (hayFwd e.text (cursorRow s0 p.toNat e) s0.col0).2)
         = some (ms, me) ∧
       (searchNext sh exec walkFuel c s d).st =
         highlight { s0 with pgPgno := p.toNat, pgSubno := e.subno, hl := [] } p.toNat e
@@ -391,12 +391,15 @@ theorem haystack_fits (t : Text) (row col : Int) :
     (hayFwd t row col).1.length ≤ 23 * 41 ∧ (hayRev t row col).1.length ≤ 23 * 41 :=
   ⟨hayFwd_length t row col, hayRev_length t row col⟩
 
-/-- **rev_matches_terminate.** The repeated `ure_exec` of `search_page_rev` ends when the matcher never returns an
-empty match (`me = 0`); an empty match would repeat forever (`me` does not advance).  (Hypothesis still needed.) -/
-theorem rev_matches_terminate (exec : Exec) (hay : List Nat) (ne : Bool)
-    (hpos : ∀ f t ms me, exec f t = some (ms, me) → 0 < me) :
-    revMatches exec hay ne (hay.length + 2) 0 0 0 ≠ none :=
-  revMatches_terminates exec hay ne hpos
+/-- **rev_matches_terminate.** The repeated `ure_exec` of `search_page_rev` ends for EVERY matcher and in both source
+shapes of the flags: the next exec begins at `pos = (me > pos) ? me : pos + 1` (b5116c9; the model follows that statement
+since round 6), so an empty match no longer repeats.  The former hypothesis "the matcher never returns an empty match" is
+gone (strengthened). -/
+theorem rev_matches_terminate (sh : Shape) (exec : Exec) (hay : List Nat) (ne : Bool) :
+    revMatches sh exec hay ne (hay.length + 2) 0 0 0 0 ≠ none :=
+  revMatches_terminates sh exec hay ne
+
+example : revMatches Shape.repaired (fun _ _ => some (0, 0)) [1, 2] false 4 0 0 0 0 ≠ none := rev_matches_terminate _ _ _ _
 
 /-- **matcher_exact.** (replaces `matcher_quirk_counterexample`, C17-D1 repaired by 8b7ac93)  The literal matcher the
 model runs against the real `ure_exec` in the correspondence (`exactLit`) is the leftmost substring search on the case
@@ -471,10 +474,12 @@ theorem walk_exact_lookup_3f7f :
 /-! ## finding C17-D7 in both source shapes (which one /repo has: `current_shape`) -/
 
 /-- **current_shape.** The source shape translate/gen_search.py read from /repo on this run is one of the two the
-model follows - never a half-applied repair (the translator refuses that, and this would not build).  With
+model follows - never a half-applied repair (the translator refuses that, and this would not build); since round 6 a
+third one: `Shape.anchored` = `Shape.repaired` + fixes/C17-line-anchors.diff (Props/C17Anchors.lean).  With
 `Shape.unrepaired` the counterexample below is the behaviour of /repo (known finding C17-D7); with `Shape.repaired`
 it is `turn_on_3f7f_repaired`, and the hypothesis `S != VBI_ANY_SUBNO` of the search_exact theorems is void. -/
-theorem current_shape : Shape.current = Shape.unrepaired ∨ Shape.current = Shape.repaired := by decide
+theorem current_shape : Shape.current = Shape.unrepaired ∨ Shape.current = Shape.repaired ∨ Shape.current = Shape.anchored := by
+  decide
 
 /-- **turn_on_3f7f_counterexample (C17-D7, UNREPAIRED shape only).** "Each once per pass, in order" fails for a pass
 that starts at a page whose sub-code is 0x3F7F.  (a) Hex page 11F is cached with sub-codes 0 and 0x3F7F, both contain
